@@ -82,4 +82,18 @@ PROPS = {
         "trusted_base": COMMON_TB + ["handler skeletons and rotation in the reference storage are hand-modelled; tied by this stream"],
         "assumptions": [],
     },
+    "C14": {
+        "proof_module": "OidcModel.Proofs.C14",
+        "theorems": ["C14.c14_assertion_sound", "C14.c14_private_key_client", "C14.c14_request_object_sound", "C14.verifyJWTAssertion_paths"],
+        "cases": {"quick": 3000, "thorough": 60000},
+        "rule": "(a) assertions over iss / sub / aud / iat / exp (boundaries +-2s) / kid / signing key (own, another client's, unknown) against a registry in which "
+                "every client has its OWN keys, verifier settings (max age, offset, default or custom subject check), through the real op.VerifyJWTAssertion; "
+                "(b) assertions minted by client.NewSignerFromPrivateKeyByte + client.SignedJWTProfileAssertion for RSA / EC / Ed25519 keys; (c) request objects "
+                "(own / foreign / unknown issuer, client_id agreeing or not, audience, response_type, 7 overridable parameters, manipulated serialisations) through "
+                "the real op.ParseRequestObject with the resulting parameters observed; non-trivial = not the modal class",
+        "trivial_class": r"reqobj:err",
+        "trusted_base": COMMON_TB + ["JSON decoding of assertion / request-object payloads is taken from the real codec",
+                                     "completeness ('helper assertions are accepted') is checked by the correspondence stream only, not proved"],
+        "assumptions": ["no client is registered with an empty client id"],
+    },
 }
